@@ -405,6 +405,21 @@ type Src struct {
 	typ *dials.Type
 	// ValueCalls counts Value invocations.
 	ValueCalls atomic.Int64
+	// handed holds every value this source gave to dials (Value results and reports).
+	handed []reflect.Value
+}
+
+// Handed returns every value this source gave to dials.
+func (s *Src) Handed() []reflect.Value {
+	s.mu.Lock()
+	defer s.mu.Unlock()
+	return append([]reflect.Value(nil), s.handed...)
+}
+
+func (s *Src) remember(v reflect.Value) {
+	s.mu.Lock()
+	s.handed = append(s.handed, v)
+	s.mu.Unlock()
 }
 
 // Value implements dials.Source.
@@ -413,7 +428,9 @@ func (s *Src) Value(_ context.Context, t *dials.Type) (reflect.Value, error) {
 	if s.ValueErr != nil {
 		return reflect.Value{}, s.ValueErr
 	}
-	return s.Init.Materialize(t.Type()), nil
+	v := s.Init.Materialize(t.Type())
+	s.remember(v)
+	return v, nil
 }
 
 // WSrc is a watching Src.
@@ -451,6 +468,7 @@ func (s *WSrc) Type() reflect.Type {
 // Report sends a layer (blocking or not) and returns the error.
 func (s *WSrc) Report(ctx context.Context, l *Layer, blocking bool) error {
 	v := l.Materialize(s.Type())
+	s.remember(v)
 	if blocking {
 		return s.WA().BlockingReportNewValue(ctx, v)
 	}
